@@ -558,10 +558,15 @@ def run_job(hdef, case, tier="quick", seed=0, replay_budget=6):
         for name, claim, opts in h.obligations:
             drop_pc = opts["drop_pc"]
             subst = opts["subst"]
+            raw_claim = claim
             claim = z3.simplify(pur(claim))
             extra_cons = pur.take_consistency()
             if z3.is_true(claim):
                 stats["concrete_true"] = stats.get("concrete_true", 0) + 1
+                if _vars(raw_claim, {}):
+                    # an identity between symbolic terms settled by z3's term normalisation
+                    stats["folded_symbolic"] = stats.get("folded_symbolic", 0) + 1
+                    stats["distinct"].add(hashlib.sha1((name + raw_claim.sexpr()[:2000]).encode()).hexdigest())
                 continue
             key = hashlib.sha1((name + "|" + "|".join(c.sexpr() for c in cons) + "|" +
                                 claim.sexpr()).encode()).hexdigest()
